@@ -153,10 +153,10 @@ Section Merged.
   Qed.
 
   (* the specification state: ONE store at that path whose list is the concatenation *)
-  Variables (sg : Z).
+  Variables (sg : Z) (cp : option nat).
   Definition ident : bool := match d_index d with IxFull _ => true | _ => false end.
   Definition concat_world : sworld :=
-    mkSW [(outp, mkS (map strip items) sg ident)] (Some (mkSH (SLFile outp) MRead)).
+    mkSW [(outp, mkS (map strip items) sg ident)] (Some (mkSH (SLFile outp) MRead cp)).
 
   Definition read_op (o : op) : Prop :=
     match o with Add _ | Get _ | Len | Iter _ | Sync | GetFlight _ | Evict _ => True | _ => False end.
@@ -179,9 +179,9 @@ Section Merged.
     (exists h', w' = mkW fs (Some h') /\ mh_ok h') /\ spec_step concat_world o = (concat_world, coarse r).
   Proof.
     intros (M & Hix) Ro Nd E. pose proof M as (A & B & C & D & Em & F & G).
-    assert (Hitems : s_items concat_world (mkSH (SLFile outp) MRead) = map strip items).
+    assert (Hitems : s_items concat_world (mkSH (SLFile outp) MRead cp) = map strip items).
     { unfold s_items. cbn [sh_loc]. now rewrite slookup_concat. }
-    assert (Hdef : s_def concat_world (mkSH (SLFile outp) MRead) = Some (sg, ident)).
+    assert (Hdef : s_def concat_world (mkSH (SLFile outp) MRead cp) = Some (sg, ident)).
     { unfold s_def. cbn [sh_loc]. now rewrite slookup_concat. }
     destruct o; try contradiction Ro; cbn [step w_h w_fs] in E.
     - (* Add *) unfold add in E. rewrite D in E. injection E as <- <-. split; [exists h; split; auto; split; auto|].
@@ -255,17 +255,17 @@ Definition inputs_wf (fs0 : fsys) (ins : list path) : Prop :=
   forall p f, In p ins -> flookup p fs0 = Some (NFile f) ->
               file_ok f /\ (f_hasidx f = true -> part_fresh f).
 
-Theorem merged_is_concat fs0 outp ins fs' :
+Theorem merged_is_concat fs0 outp ins fs' cp :
   inputs_wf fs0 ins ->
   merge_run fixed_cfg fs0 outp ins None = (fs', OUnit) ->
   let parts := map (input_file fs0) ins in
   exists h d,
-    step fixed_cfg (mkW fs' None) (OpenR outp) = (mkW fs' (Some h), OUnit) /\
+    step fixed_cfg (mkW fs' None) (OpenR outp cp) = (mkW fs' (Some h), OUnit) /\
     flookup outp fs' = Some (NDir d) /\
     ident d = all_indexed fs0 ins /\
     forall sg ops, reads_ok parts ops ->
       map coarse (snd (run fixed_cfg (mkW fs' (Some h)) ops))
-      = snd (spec_run (concat_world outp d parts sg) ops).
+      = snd (spec_run (concat_world outp d parts sg cp) ops).
 Proof.
   intros Wf E parts. apply merge_success in E as (P & (M & I & T)).
   destruct P as [Px Pf Pnc Pfiles Pb Psig Pidx].
@@ -291,7 +291,7 @@ Proof.
     unfold input_file, in_file. rewrite L. apply Fr.
     unfold all_indexed in Hall. rewrite forallb_forall in Hall. specialize (Hall p Hp).
     unfold in_file in Hall. now rewrite L in Hall. }
-  assert (Hopen : exists h, open_merged fs' outp d = inl h /\ mh_ok outp d parts h).
+  assert (Hopen : exists h, open_merged fs' outp d cp = inl h /\ mh_ok outp d parts h).
   { unfold open_merged. rewrite Px, T. unfold final_meta.
     destruct ins as [|p0 r]; [contradiction|]. cbn [map]. cbn [map] in Hlisted. rewrite Hlisted.
     rewrite I. unfold final_ix. unfold mh_ok, minv, ident. rewrite I. unfold final_ix.
